@@ -123,7 +123,44 @@ class Interp(EngineBase):
             items[kk] = self.ev(v)
         return Record(items)
 
+    def count_where(self, l, pred):
+        """number of elements x of the multiset l with pred(x) (an uninterpreted count over the reified predicate)"""
+        x = z3.Int('cw_x')
+        BAGCOUNT = z3.Function('bagcount', IntArr, BoolArr, I)
+        arr = z3.Lambda([x], pred(x))
+        cnt = BAGCOUNT(l.cnt, arr)
+        self.st.assume(z3.And(cnt >= 0, cnt <= l.n))
+        return cnt
+
     def ev_ListComp(self, e):
+        g0 = e.generators[0] if e.generators else None
+        if len(e.generators) == 1 and not g0.ifs and isinstance(g0.target, ast.Name) and isinstance(e.elt, ast.IfExp) \
+                and isinstance(e.elt.body, ast.Constant) and isinstance(e.elt.orelse, ast.Constant) \
+                and e.elt.body.value == 1 and e.elt.orelse.value == 0:
+            # [1 if P(x) else 0 for x in L]  (summed by the caller): an indicator list
+            src = self.ev(g0.iter)
+            if isinstance(src, ListObj):
+                self.bag_facts(src)
+                name = g0.target.id
+                saved = self.st.locals.get(name, NotImplemented)
+
+                def pred(x):
+                    self.st.locals[name] = self.elem_value(src, x)
+                    self.guards.append(z3.Select(src.cnt, x) > 0)
+                    try:
+                        return self.cond(e.elt.test)
+                    finally:
+                        self.guards.pop()
+                        if saved is NotImplemented:
+                            self.st.locals.pop(name, None)
+                        else:
+                            self.st.locals[name] = saved
+                self.guards.append(z3.BoolVal(True))
+                try:
+                    c = self.count_where(src, pred)
+                finally:
+                    self.guards.pop()
+                return ('indicator', c)
         if len(e.generators) == 1 and not e.generators[0].ifs and isinstance(e.elt, ast.Name) \
                 and isinstance(e.generators[0].target, ast.Name) and e.elt.id == e.generators[0].target.id:
             src = self.ev(e.generators[0].iter)
